@@ -82,7 +82,12 @@ func caseHash(c *Case) uint64 {
 func runInBubbles(t *testing.T, batchSize int, next func(x *Exec) bool, x *Exec) {
 	for {
 		more := true
-		func() {
+		done := make(chan struct{})
+		// Each bubble runs on its own goroutine: synctest.Test calls
+		// t.FailNow() (runtime.Goexit) when the race detector fired inside the
+		// bubble, which must not take the worker's main goroutine with it.
+		go func() {
+			defer close(done)
 			defer func() {
 				// the end-of-bubble "blocked goroutines remain" panic of an
 				// abandoned (dirty) bubble
@@ -105,6 +110,7 @@ func runInBubbles(t *testing.T, batchSize int, next func(x *Exec) bool, x *Exec)
 				}
 			})
 		}()
+		<-done
 		if !more {
 			return
 		}
